@@ -87,7 +87,7 @@ def _chunk(args):
                 w = execute(pm, scn)
             except worlds.ToyUnavailable as e:
                 st["toy_skipped"] += 1
-                st["digest"].update(b"toy-skip\n")
+                st["perrun"].append("toy-skip")
                 continue
         except Exception:
             st["errors"].append("run %d: %s" % (idx, traceback.format_exc()[-1500:]))
@@ -97,8 +97,7 @@ def _chunk(args):
         st["runs"] += 1
         d = sim.log_digest(w)
         st["digest"].update(d.encode())
-        if len(st["perrun"]) < 4000:
-            st["perrun"].append(d)
+        st["perrun"].append(d)
         st["ticks"] += w.tick
         st["steps"] += len(scn["steps"])
         st["skipped_steps"] += w.skipped
@@ -367,7 +366,7 @@ def run_batch(pid, tier, seed, workers=None, runs=None, write_evidence=True, qui
     dg = hashlib.sha256()
     for lo in sorted(results):
         st = results[lo]
-        dg.update(st["digest"].encode())
+        dg.update("".join(st["perrun"]).encode())
         for k in ("runs", "nontrivial", "ticks", "skipped_steps", "toy_skipped", "steps"):
             agg[k] += st[k]
         agg["nviol"] += st.get("nviol", 0)
@@ -477,7 +476,7 @@ def run_batch(pid, tier, seed, workers=None, runs=None, write_evidence=True, qui
         ev["coverage"]["probes_at_zero"] = zero
         if not quiet:
             print("note: reach probes at zero in this batch: %s" % ", ".join(zero))
-    if write_evidence and rc != 2:
+    if write_evidence and rc != 2 and not os.environ.get("VERIF_NO_EVIDENCE"):
         os.makedirs(os.path.join(ROOT, "evidence"), exist_ok=True)
         with open(os.path.join(ROOT, "evidence", pid + ".json"), "w") as f:
             json.dump(ev, f, indent=1, sort_keys=True)
